@@ -50,10 +50,12 @@ def run_case(spec):
   emod = bootstrap.mm('geoeligibility')
   G = r.randrange(1, 10)
   D = r.choice([4, 6, 9, 15, 30, 60])
-  cls = gen.weighted(r, [('continuous', 4), ('gappy', 4), ('integer', 1), ('duplicates', 1)])
+  cls = gen.weighted(r, [('continuous', 4), ('gappy', 4), ('integer', 1), ('duplicates', 1), ('giant', 1)])
   id_style = r.choice(['str', 'int', 'intmix', 'numstr'])
   panel = gen.gen_panel(r, g, G, D, cls=cls, id_style=id_style, date_style=r.choice(['ts', 'iso']))
   sign = gen.weighted(r, [('positive', 6), ('negative', 1.5), ('mixed', 1.5)])
+  if cls == 'giant':
+    sign = 'positive'        # an offset of the size of the giant geo would wipe out the digits of all the others
   if sign != 'positive':
     # responses may be negative (net flows, differences); the total may be negative as well
     v = panel['values'] - (2.0 if sign == 'negative' else 1.0) * float(panel['values'].mean()) * (
@@ -204,12 +206,21 @@ def run_case(spec):
   assignable = sorted(want_assignable)
   canonical = [gid for gid in idx if gid in want_assignable]
   noncanonical_seen = False
-  for rep in range(3):
+  reuse_list = None
+  for rep in range(4):
     if not assignable or violations:
       break
     k = r.randrange(1, len(assignable) + 1)
     order = r.sample(assignable, k)
-    if r.random() < 0.3:
+    if rep == 3 and reuse_list is not None and len(reuse_list) >= 2:
+      # the caller keeps ONE list object, reorders it in place and assigns it again
+      reuse_list.reverse()
+      order = reuse_list
+      k = len(order)
+      counters['same_list_reassigned'] += 1
+    elif rep == 2:
+      reuse_list = order
+    elif r.random() < 0.3:
       order = tuple(order)
     if list(order) != [gid for gid in canonical if gid in set(order)]:
       noncanonical_seen = True
@@ -244,7 +255,7 @@ def run_case(spec):
       want_ts = np.zeros(D)
       for i in sel:
         want_ts = want_ts + row_of[order[i]][[{str(d): q for q, d in enumerate(panel['dates'])}[str(c)] for c in df.columns]]
-      if not util.arr_close(ts.value, want_ts, rtol=1e-12, atol=1e-9 * float(np.abs(want_ts).max() + 1e-300) * 1e-3):
+      if not util.arr_close(ts.value, want_ts, rtol=1e-12, atol=1e-12 * float(np.abs(want_ts).max() + 1e-300)):
         add('aggregate-ts', 'data-aggregate-ts', 'geo_index=%r, aggregate_time_series(%r) differs from the sum of rows %r' % (
             order, sel, [order[i] for i in sel]))
         break
